@@ -1,5 +1,6 @@
 import Claripy.Solver.Stack
 import Claripy.Gen.SolverPickle
+import ClaripyProofs.Lemmas.Solver.SolverPickle
 /-!
 # C18 — pickled solvers round-trip with identical meaning
 
@@ -92,5 +93,101 @@ theorem C18_restore_woAnnot (fe : Frontend) (c : Con) (hc : c ∈ fe.constraints
 theorem C18_restore_idempotent (fe : Frontend) :
     pickleRestore (mro .Solver) (pickleRestore (mro .Solver) fe) = pickleRestore (mro .Solver) fe := by
   simp [pickleRestore, mro_solver, pickleLayer]
+
+/-! ### the round trip keeps the invariant of C11, hence the meaning of the solver
+
+`SI = BInv ∧ MCInv ∧ SCInv` is the invariant every answer of the caching class rests on (`C11_solver_refines`).  The restored
+frontend satisfies it for the constraints the user gave the ORIGINAL: the constraints, hashes, variables and the cached
+satisfiability verdict travel; the Z3 object, what was pending for it, the cached models and the exhausted tables start empty,
+which is trivially valid; `constraints_wo_annotations` is recomputed from the constraints. -/
+
+variable {E : Env} {R : Con → Prop} {RE : Exp → Prop}
+
+/-- **the pickle round trip of a `Solver` preserves the full invariant** (for any heap, any ghost predicate `G`) -/
+theorem C18_restore_keeps_invariant {G : St → Prop} {U : List Con} (hR : Reg R E) {s : St} (h : SI R RE E G U s) :
+    SI R RE E G U { s with fe := pickleRestore (mro .Solver) s.fe } := si_restore hR h
+
+/-- the same for SolverCompositeChild (what a SolverComposite pickles per group of variables) -/
+theorem C18_child_restore_keeps_invariant {G : St → Prop} {U : List Con} (hR : Reg R E) {s : St} (h : SI R RE E G U s) :
+    SI R RE E G U { s with fe := pickleRestore (mro .SolverCompositeChild) s.fe } := si_restore_child hR h
+
+/-- in a tree of solvers: replacing solver `i` by its restored copy keeps the invariant of the world; nobody's constraints change -/
+theorem C18_pickle_step_keeps_world (H : SolverHyps R RE E) (w : World) (Us : List (List Con)) (hw : TInvS R RE E Us w)
+    (i : Nat) (hi : i < w.fes.length) :
+    (step E .Solver w i .pickle).1 = .unit ∧ TInvS R RE E Us (step E .Solver w i .pickle).2 :=
+  ⟨rfl, (sol_step H w Us hw i hi .pickle trivial).2⟩
+
+/-- **a restored solver continues any history like the original.**  Take any world of the tree (reached by any history), and
+any further history `rest` in scope (calls on the restored solver, its branches, anybody).  Run it (a) from the world as it
+is and (b) from the world in which solver `i` went through `pickle.loads(pickle.dumps(·))`.  The two runs judge the same calls
+by the same constraint lists, and every answer of either run is allowed for them (or is an honest give-up). -/
+theorem C18_restored_continues (H : SolverHyps R RE E) (w : World) (Us : List (List Con)) (hw : TInvS R RE E Us w)
+    (i : Nat) (hi : i < w.fes.length) (rest : List (Nat × Op)) (hok : HistOkS R RE w.fes.length rest) :
+    (∀ x ∈ runHist E .Solver w Us rest, JudgeOrGiveUp E x.1 x.2.1 x.2.2) ∧
+    (∀ x ∈ runHist E .Solver (step E .Solver w i .pickle).2 Us rest, JudgeOrGiveUp E x.1 x.2.1 x.2.2) ∧
+    (runHist E .Solver (step E .Solver w i .pickle).2 Us rest).map (fun x => (x.1, x.2.1)) =
+      (runHist E .Solver w Us rest).map (fun x => (x.1, x.2.1)) := by
+  have hw' := (sol_step H w Us hw i hi .pickle trivial).2
+  have hlen : (step E .Solver w i .pickle).2.fes.length = w.fes.length := sol_step_length H w Us hw i hi .pickle trivial
+  refine ⟨sol_hist_giveup H rest w Us hw hok, sol_hist_giveup H rest _ _ hw' (by rw [hlen]; exact hok), ?_⟩
+  generalize (step E .Solver w i .pickle).2 = w2
+  clear hw hw' hlen hok hi
+  induction rest generalizing w w2 Us with
+  | nil => rfl
+  | cons io rest ih =>
+    obtain ⟨j, op⟩ := io
+    rw [runHist_cons', runHist_cons', List.map_cons, List.map_cons, ih]
+
+/-- … in particular the satisfiability verdict after the round trip is THE verdict of the original (when the backend answers
+both; the cached verdict travels, a missing one is recomputed) -/
+theorem C18_restored_same_verdict (H : SolverHyps R RE E) (w : World) (Us : List (List Con)) (hw : TInvS R RE E Us w)
+    (i : Nat) (hi : i < w.fes.length) (ex : List Con) (hex : ∀ c ∈ ex, ConWf c)
+    (h1 : (step E .Solver w i (.satisfiable ex)).1 ≠ .err .giveUp)
+    (h2 : (step E .Solver (step E .Solver w i .pickle).2 i (.satisfiable ex)).1 ≠ .err .giveUp) :
+    (step E .Solver (step E .Solver w i .pickle).2 i (.satisfiable ex)).1 = (step E .Solver w i (.satisfiable ex)).1 := by
+  have hw' := (sol_step H w Us hw i hi .pickle trivial).2
+  have hlen : (step E .Solver w i .pickle).2.fes.length = w.fes.length := sol_step_length H w Us hw i hi .pickle trivial
+  have j1 := (sol_step H w Us hw i hi (.satisfiable ex) hex).1
+  have j2 := (sol_step H _ Us hw' i (by rw [hlen]; exact hi) (.satisfiable ex) hex).1
+  rcases j1 with j1 | g1
+  · rcases j2 with j2 | g2
+    · exact judge_satisfiable_unique j2 j1
+    · exact (h2 g2.eq).elim
+  · exact (h1 g1.eq).elim
+
+/-- **the restored copy as a twin**: `t = pickle.loads(pickle.dumps(s))` while `s` lives on.  The twin joins the tree as solver
+number `w.fes.length`; it refers to no Z3 object and shares nothing with anybody; whatever is done afterwards to the original,
+the twin and all the others, every answer is allowed for the constraints of the solver asked — for the twin: the constraints
+`s` had at the dump plus what was added to the twin since. -/
+theorem C18_restored_twin (H : SolverHyps R RE E) (w : World) (Us : List (List Con)) (hw : TInvS R RE E Us w)
+    (i : Nat) (hi : i < w.fes.length) :
+    TInvS R RE E (Us ++ [Us.getD i []]) (twinWorld .Solver w i) ∧
+    ∀ rest, HistOkS R RE (w.fes.length + 1) rest →
+      ∀ x ∈ runHist E .Solver (twinWorld .Solver w i) (Us ++ [Us.getD i []]) rest, JudgeOrGiveUp E x.1 x.2.1 x.2.2 := by
+  have hw' := tinvS_append_restored H.reg hw hi
+  refine ⟨hw', fun rest hrest => sol_hist_giveup H rest _ _ hw' ?_⟩
+  have : (twinWorld .Solver w i).fes.length = w.fes.length + 1 := by simp [twinWorld]
+  rw [this]
+  exact hrest
+
+/-- non-vacuity: in the consistent environment of C11, after the first four calls of `cHist` (`add(x == 5)`, `eval`, `add(x <= 5)`,
+`max`: models cached, `x` flagged exhausted), solver 0 is dumped and loaded; the original and the twin are asked the same
+questions -/
+example : ∀ x ∈ runHist cEnv .Solver (twinWorld .Solver (worldAfter cEnv .Solver (World.init false false) (cHist.take 4)) 0)
+      (usersAfterHist [[]] (cHist.take 4) ++ [(usersAfterHist [[]] (cHist.take 4)).getD 0 []])
+      [(0, .eval cExp 10 []), (1, .eval cExp 10 []), (1, .add [cCon]), (1, .min cExp [] true), (0, .min cExp [] true)],
+    JudgeOrGiveUp cEnv x.1 x.2.1 x.2.2 := by
+  have hok : HistOkS cR cRE 1 (cHist.take 4 ++ cHist.drop 4) := by rw [List.take_append_drop]; exact cHist_ok
+  obtain ⟨hw, hlen⟩ := sol_reach cHyps (cHist.take 4) _ _ (tinvS_init cR cRE cEnv false) (histOkS_append.mp hok).1
+  have h1 : (worldAfter cEnv .Solver (World.init false false) (cHist.take 4)).fes.length = 1 := hlen
+  refine (C18_restored_twin cHyps _ _ hw 0 (by omega)).2 _ ?_
+  rw [h1]
+  have hc : cR cCon := Or.inr (Or.inl rfl)
+  have he : cRE cExp := rfl
+  simp only [HistOkS, InScopeS, List.mem_singleton, forall_eq, List.not_mem_nil, false_implies, implies_true, and_true]
+  exact ⟨by omega, ⟨he, by omega⟩, by omega, ⟨he, by omega⟩, by omega, hc, by omega, he, by omega, he⟩
+
+example : ∀ x ∈ runHist cEnv .Solver (World.init false false) [[]] cHist, JudgeOrGiveUp cEnv x.1 x.2.1 x.2.2 :=
+  (C18_restored_continues cHyps _ _ (tinvS_init cR cRE cEnv false) 0 (by decide) cHist cHist_ok).1
 
 end Claripy.Props.C18
